@@ -233,7 +233,7 @@ def s_interface(w, st):
 
     dep = st.get("d") or Option("A", 1)
     ns = {
-        "__annotations__": {"imp": int},
+        "__annotations__": {"imp": int, "bnd": int, "swd": int, "csd": int},
         "abs": abstractdataset(_mk(w, "i_abs")),
         "plain": staticmethod(_mk(w, "i_plain", dep)),
         "ds": dataset(_mk(w, "i_ds", dep)),
@@ -249,7 +249,14 @@ def s_implementation(w, st):
     iface = st.get("iface")
     if iface is None:
         return
-    ns = {"imp": 3, "abs": _mk(w, "impl_abs", st.get("d") or Option("A", 1)), "ds": dataset(_mk(w, "impl_ds")), "const": Option("C", 2)}
+    from labrea import case, switch
+
+    ns = {"imp": 3, "abs": _mk(w, "impl_abs", st.get("d") or Option("A", 1)), "ds": dataset(_mk(w, "impl_ds")), "const": Option("C", 2),
+          # members whose structure depends on a dataset that can be evaluated without any option: defining the
+          # implementation must not evaluate it (nor ask it anything that does)
+          "bnd": dataset(_mk(w, "impl_src")).bind(lambda v: Option("Z", 0)),
+          "swd": switch(dataset(_mk(w, "impl_disp")), {1: Option("Z", 0)}, Option("Y", 1)),
+          "csd": case(dataset(_mk(w, "impl_csrc"))).when(w.fn("p_true"), Option("Z", 0)).otherwise(1)}
     st["impl"] = iface.implementation(["one", "two"])(type("Impl", (), ns))
 
 
